@@ -26,7 +26,7 @@ namespace Givaro {
     inline typename Poly1Dom<Domain,Dense>::Rep& Poly1Dom<Domain,Dense>::shift ( Rep& R, const Rep& a, int s) const
     {
         R = a;
-        return R.shiftin(R, s);
+        return shiftin(R, s);
     }
 
 
